@@ -20,10 +20,12 @@ CLAUSES = {
             "P04_only_the_last_response_may_be_cut", "P04_request_of_unknown_connection",
             "P04_executed_in_arrival_order_exactly_once", "P04_one_request_at_a_time",
             # "each exactly once" is also "at least once": at rest, with a client that reads, nothing is left unserved
-            "P05_every_complete_request_answered", "P05_no_unserviced_request_at_quiescence", "P05_no_livelock"],
+            "P05_every_complete_request_answered", "P05_no_unserviced_request_at_quiescence", "P05_no_livelock",
+            "P19_at_most_one_interim_per_request"],        # no byte duplicated: also not the interim response
     "C05": ["P05_no_livelock", "P05_no_undelivered_output_at_quiescence", "P05_no_unserviced_request_at_quiescence",
             "P05_close_decision_carried_out", "P05_input_not_left_unread", "P05_every_complete_request_answered",
-            "P05_dead_connection_closed", "P05_no_producer_waits_at_quiescence"],
+            "P05_dead_connection_closed", "P05_no_producer_waits_at_quiescence",
+            "P12_paused_producer_released"],        # (also when the client has stopped reading: a closed connection has nothing to wait for)
     "C11": ["P11_nothing_executed_after_a_closing_response", "P11_no_response_after_a_closing_response",
             "P11_closing_response_is_followed_by_close", "P11_no_execution_after_close_decision",
             "P11_nothing_executed_after_an_exchange_that_must_close"],
@@ -42,13 +44,13 @@ CLAUSES = {
             "P04_wire_is_a_sequence_of_well_formed_responses", "P05_every_complete_request_answered"],
 }
 
-CLOSING_KINDS = {"close", "http10", "bad", "toolarge", "garbage"}
+CLOSING_KINDS = {"close", "http10", "bad", "toolarge", "garbage", "te10"}
 REFUSED_KINDS = {"bad", "toolarge", "garbage"}
 
 
 def mk(reqs, *, lookahead=0, workers=1, room=None, split="one", apps=None, adj=None, use_poll=False,
        drains=True, extra_client=(), name="", faults=None, waits=(), second=None, sndbuf=65536, accept_faults=(),
-       read_before_await=False):
+       read_before_await=False, body_in_two=False):
     """Build a scenario.  reqs: list of dict(k, kind[, blen]).  split: how the client
     delivers the bytes: one | each | headbody | bytes2 (two arbitrary halves)."""
     apps = apps or {}
@@ -68,7 +70,10 @@ def mk(reqs, *, lookahead=0, workers=1, room=None, split="one", apps=None, adj=N
                 client.append(["readall"])
             if r["k"] in waits:
                 client.append(["await100", sum(1 for w in waits if w <= r["k"])])
-            if b:
+            if b and body_in_two and len(b) > 1:
+                client.append(["send", b[:1]])
+                client.append(["send", b[1:]])
+            elif b:
                 client.append(["send", b])
     elif split == "joinheads":
         # everything up to and including the head of the first waiting request arrives in one read
@@ -82,6 +87,13 @@ def mk(reqs, *, lookahead=0, workers=1, room=None, split="one", apps=None, adj=N
                 client.append(["await100", sum(1 for w in waits if w <= r["k"])])
                 if b:
                     client.append(["send", b])
+            elif r.get("kind") == "expect" and body_in_two:
+                # the head of an expecting request with what stands before it, then its body in two pieces - the
+                # client does not wait for the interim response
+                client.append(["send", buf + h])
+                buf = b""
+                client.append(["send", b[:1]])
+                client.append(["send", b[1:]])
             else:
                 buf += h + b
         if buf:
@@ -138,7 +150,7 @@ def cfg_of(scn):
             body = h_channel.request_bytes(r)[1]
             blen = r.get("blen", 3) if kind in ("body", "chunked", "expect", "expect10") else 0
             mustclose = bool(kind in CLOSING_KINDS or cl == "larger" or spec.get("raise") or spec.get("raise_at") is not None)
-            reqs.append({"v11": kind not in ("http10", "http10_ka", "expect10"), "expect": kind in ("expect", "expect_nobody", "expect10"),
+            reqs.append({"v11": kind not in ("http10", "http10_ka", "expect10", "te10"), "expect": kind in ("expect", "expect_nobody", "expect10"),
                          "refuse": kind in REFUSED_KINDS, "rlen": rlen, "blen": blen, "mark": chr(64 + r["k"]), "mustclose": mustclose})
             if kind == "partial":
                 closed = True
